@@ -193,6 +193,7 @@ func runC04(p *Program, r *Result) {
 		if !found {
 			r.Bad(fn.String(), "tag-mismatch", "", "no return on the tag-mismatch edge")
 		}
+		checkFatalBeforeTag(p, r, fn)
 	}
 
 	if dec == nil || newReader == nil {
@@ -472,4 +473,36 @@ func accumulatingAppend(v ssa.Value) *ssa.Call {
 		}
 	}
 	return nil
+}
+
+// checkFatalBeforeTag (R04.3, shared with C01): in an SSH unwrap a fatal error in front of the tag
+// comparison may depend on the shape of the stanza only (its type, the number of arguments),
+// never on this identity's key: a well-formed stanza addressed to another SSH key of the same type
+// (another modulus size, say) has to be passed over with the sentinel, not abort the decryption.
+func checkFatalBeforeTag(p *Program, r *Result, fn *ssa.Function) {
+	tb := p.TB(fn)
+	isTagEq := func(a Atom) bool {
+		if a.Kind != "cmp" || a.Op != "==" {
+			return false
+		}
+		x, y := short(a.X.String()), short(a.Y.String())
+		return (x == "Elem(Field(P1.Args), 0)" && y == "agessh.sshFingerprint(Field(Recv.sshKey))") ||
+			(y == "Elem(Field(P1.Args), 0)" && x == "agessh.sshFingerprint(Field(Recv.sshKey))")
+	}
+	bad := ""
+	for _, ret := range returnsOf(fn) {
+		if len(ret.Results) != 2 || isNilConst(ret.Results[1]) || isSentinel(tb, ret.Results[1]) {
+			continue
+		}
+		facts := tb.FactsAt(ret.Block())
+		if _, tagged := findFact(facts, isTagEq); tagged {
+			continue
+		}
+		for _, a := range facts {
+			if strings.Contains(a.String(), "Recv") {
+				bad = "the fatal error returned at " + r.pos(ret) + " stands in front of the tag comparison and depends on this identity (" + short(a.String()) + "): a stanza addressed to another key of the same type aborts decryption instead of being passed over"
+			}
+		}
+	}
+	r.Check(bad == "", fn.String(), "fatal-before-tag", "", "errors in front of the tag comparison depend on the stanza's shape only", bad)
 }
